@@ -30,12 +30,12 @@ type Layout struct {
 type gap uint8
 
 const (
-	gNone  gap = iota
-	gTight     // canonical: nothing; random: optional blanks
-	gSpace     // canonical: one space
-	gBreak     // SPACE_EOLS admitted (named place)
-	gBreakX    // SPACE_EOLS admitted (extended place)
-	gSep       // statement separator required
+	gNone   gap = iota
+	gTight      // canonical: nothing; random: optional blanks
+	gSpace      // canonical: one space
+	gBreak      // SPACE_EOLS admitted (named place)
+	gBreakX     // SPACE_EOLS admitted (extended place)
+	gSep        // statement separator required
 )
 
 type printer struct {
